@@ -935,6 +935,12 @@ theorem clean_removes_index_entries (st : RStore) (h : RStore.Consistent st) (k 
     obtain ⟨r, hr', _⟩ := (hc.sts k b hb).1 hm
     rw [hitem] at hr'; cases hr'
 
+/-- non-vacuity: the empty store is consistent, and so is a store holding one saved server, from which the batch removes it -/
+example : RStore.Consistent {} ∧ RStore.Consistent (({} : RStore).saveBatch W.fresh 10) ∧
+    ((({} : RStore).saveBatch W.fresh 10).removeBatch W.A.key).refreshed[W.A.key]? = none :=
+  ⟨RStore.consistent_empty, RStore.saveBatch_consistent RStore.consistent_empty _ _,
+   (clean_removes_index_entries _ (RStore.saveBatch_consistent RStore.consistent_empty _ _) W.A.key).2.2.2.1⟩
+
 /-- **Configuration wiring (regenerated fact).**  How configuration reaches the cleaner component (retention reaches both cleaners unchanged) and the liveness setting (command line → settings → browser handler / observer): every field of every
 configuration literal in `cmd/swat4master` that concerns this property, with the source text of the value it is given
 (`verifharness facts`, go/ast, on every run).  A command-line value wired to another field, a unit conversion or a
